@@ -583,7 +583,8 @@ func envCases(thorough bool) []kase {
 		ops = append(ops, "Unsetenv "+k, "Getenv "+k, "LookupEnv "+k)
 	}
 	ops = append(ops, "Clearenv", "Environ", "ExpandEnv $A-${B}-$HOSTONLY")
-	inits := [][]string{nil, {"A=1"}, {"A=1", "B="}, {"A"}}
+	// initial Options.Env: empty, plain, empty value, no "=" at all, and values that themselves contain "="
+	inits := [][]string{nil, {"A=1"}, {"A=1", "B="}, {"A"}, {"A=x=y", "B=="}, {"A=-f=1", "B=http://h/p?a=1&b=2"}}
 	var ks []kase
 	// explicit-state search over the model: states = maps over the three keys; one shortest path per state, then every op from it
 	for _, init := range inits {
@@ -762,7 +763,7 @@ func main() {
 		r.Set("cases_"+k, res.Counts["kind_"+k])
 	}
 	r.Set("exhaustive", true)
-	r.Set("rule", "imports: 3 forbidden packages x 10 import forms; exit: os.Exit, log.Fatal* and Fatal/Fatalf/Fatalln on every logger source discovered by reflection in the default table; env: BFS to closure over map-model states (3 keys x 3 values) from 4 initial Options.Env, every op from every state, plus all op sequences of length <= 2 (thorough 3); streams: 21 redirected I/O uses; multi: several interpreters (restricted / unrestricted) in one host process keep separate environments, arguments, streams and exit overrides; every case runs in its own probe process whose exit status, real stdout/stderr and environment are observed from outside; states = distinct observations")
+	r.Set("rule", "imports: 3 forbidden packages x 10 import forms; exit: os.Exit, log.Fatal* and Fatal/Fatalf/Fatalln on every logger source discovered by reflection in the default table; env: BFS to closure over map-model states (3 keys x 3 values) from 6 initial Options.Env (incl. values containing an equals sign), every op from every state, plus all op sequences of length <= 2 (thorough 3); streams: 21 redirected I/O uses; multi: several interpreters (restricted / unrestricted) in one host process keep separate environments, arguments, streams and exit overrides; every case runs in its own probe process whose exit status, real stdout/stderr and environment are observed from outside; states = distinct observations")
 	r.Assumptions = []string{"writing to os.Stdout/os.Stderr explicitly is a documented escape and is not demanded", "reference model of the environment = a plain map"}
 	for _, i := range []int{0, len(ks) / 2, len(ks) - 1} {
 		r.Sample(ks[i])
